@@ -6,7 +6,7 @@
    manager's own keys, and a rollback is requested only on a non-empty chain. *)
 From ZV Require Import Prelude.
 From stdpp Require Import gmap sorting.
-From ZV Require Import Store StoreSpec StoreProofs StoreTheorems StoreFindings.
+From ZV Require Import Store StoreSpec StoreProofs StoreTheorems StoreFindings MemStore MemStoreProofs.
 Open Scope Z_scope.
 
 (* the model of the code refines the specification: same answers on every well-formed operation sequence *)
@@ -73,6 +73,24 @@ Theorem C07_changes_replay : forall la Sm, abs_apply Sm (achanges la) = overlay 
 Proof. exact changes_replay. Qed.
 Theorem C07_changes_sorted : forall la, Sorted (fun a b => lex_leb (pkey a) (pkey b) = true) (achanges la).
 Proof. exact changes_sorted. Qed.
+
+(* the in-memory manager (unconfirmed account chains; transactions with several commits) *)
+Theorem C07_mem_stale_parent_refused : forall m prev inter headc p,
+  prev <> mm_front m -> mm_add m prev inter headc p = (m, false).
+Proof. exact mm_stale_refused. Qed.
+Theorem C07_mem_commit_exact : forall m inter headc p st,
+  mm_state m (mm_front m) = Some st ->
+  let full := p ++ concat (map (fun c => frontier_ops (fst c) (snd c)) (inter ++ [headc])) in
+  exists m', mm_add m (mm_front m) inter headc p = (m', true) /\ mm_front m' = fst headc /\
+    mm_stable_id m' = mm_stable_id m /\
+    mm_state m' (fst headc) = Some (abs_apply st full) /\
+    (forall i, i ∉ map fst (inter ++ [headc]) -> mm_state m' i = mm_state m i).
+Proof. exact mm_add_spec. Qed.
+Theorem C07_mem_rollback_restores : forall m inter headc p st,
+  mm_state m (mm_front m) = Some st -> fst headc <> mm_stable_id m -> mm_front m ∉ map fst (inter ++ [headc]) ->
+  exists m1 m2, mm_add m (mm_front m) inter headc p = (m1, true) /\ mm_pop m1 = (m2, true) /\
+    mm_front m2 = mm_front m /\ mm_state m2 (mm_front m) = Some st.
+Proof. exact mm_add_pop. Qed.
 
 (* records of the defects this work found in the unfixed code (fixed in /repo; see known_findings.json) *)
 Theorem C07_old_tombstone_refuted : dec (Some tomb_old) = Some [] /\ dec (Some (enc_op (PDel [1]))) = None.
